@@ -9,6 +9,7 @@ import traceback
 
 from .core import Ctx, AnalysisError, finish, VERIF
 from .model import Model, AnchorError
+from . import names
 
 PROPS = ["C%02d" % i for i in range(1, 21)]
 
@@ -28,6 +29,10 @@ def run_one(prop, tier, repo, seed, out_dir=None):
         except (AnalysisError, AnchorError) as e:
             # violations already decided stay valid; without any, the run is analysis-broken
             ctx.broken = str(e)
+        try:
+            names.check_names(ctx)          # rule N of every property (sa/names.py); an unbound name may be the very reason a rule could not be decided
+        except (AnalysisError, AnchorError) as e:
+            ctx.broken = ctx.broken or str(e)
         extra = dict(getattr(mod, "EXTRA", None) or {})
         if tier == "thorough" and out_dir is None and os.path.realpath(repo) == "/repo" and not os.environ.get("SA_NO_VALIDATION"):
             extra["checker_validation"] = validate(prop)
